@@ -221,14 +221,14 @@ impl Group for C07 {
             } else {
                 Commit { n: 1, feerate: 0, to_holder: ac, to_cp: bc, offered: vec![], received: vec![] }
             };
-            ops.push(cm_c.cp_line(0));
+            ops.push(cm_c.cp_line(2 * rng.chance(1, 3) as u64));
             if depth > 1 {
                 let cm_h = if bh >= 5_400 || htlc_h.is_empty() {
                     Commit { n: 1, feerate: 0, to_holder: ah, to_cp: clean(sub(bh, &htlc_h)), offered: vec![], received: htlc_h.clone() }
                 } else {
                     Commit { n: 1, feerate: 0, to_holder: ah, to_cp: bh, offered: vec![], received: vec![] }
                 };
-                ops.push(cm_h.hold_line(true));
+                ops.push(cm_h.hold_line_x(true, rng.chance(1, 3)));
                 if depth > 2 {
                     ops.push("revoke 1".into());
                     if rng.chance(1, 2) {
